@@ -323,6 +323,15 @@ def bounded(K):
                 ok = ok and np.allclose(np.abs(xl.signal) ** 2, 10 ** (3.0 / 10 - 3), rtol=1e-9)
                 if not ok:
                     bad.append({'sps': sps, 'df/fs': frac, 'peak': float(fk)})
+        # time vectors of other types (integer sample instants, float32, a list): |E|^2 = P at every sample whatever the dtype of t
+        for tt in (np.arange(64), np.arange(64, dtype=np.float32) * 1e-3, list(range(16))):
+            n += 1
+            try:
+                xi = LASER(tt, 10.0)
+                if not np.allclose(np.abs(xi.signal) ** 2, 10 ** (10.0 / 10 - 3), rtol=1e-6):
+                    bad.append({'laser t dtype': str(np.asarray(tt).dtype), 'power': float(np.mean(np.abs(xi.signal) ** 2))})
+            except Exception as e:
+                bad.append({'laser t dtype': str(np.asarray(tt).dtype), 'raised': f'{type(e).__name__}: {e}'[:80]})
         gv.clean()
         r2 = native_check()
         if not r2[0]:
